@@ -50,7 +50,7 @@ ASSUMPTIONS = [
     'notes are generated without annobin/stapsdt owners, RELR sections are not displayed by the clone, core-file notes live in '
     'segments the clone does not print: files with those features are skipped for the option concerned',
 ]
-KINDS = {'corpus': (288, 1011, 0), 'system': (22, 64, 1), 'compiled': (28, 63, 1), 'descr': (64, 64, 2), 'dwdescr': (40, 40, 1), 'generated': (260, 2600, 4)}
+KINDS = {'corpus': (288, 1011, 0), 'system': (22, 64, 1), 'compiled': (30, 68, 1), 'descr': (64, 64, 2), 'dwdescr': (40, 40, 1), 'generated': (260, 2600, 4)}
 FLOOR = {'quick': 150, 'thorough': 600}
 CASE_TIMEOUT = 1200
 OPTIONS = ['-e', '-d', '-s', '-n', '-r', '-x.text', '-p.shstrtab', '-V', '--debug-dump=info', '--debug-dump=decodedline',
@@ -294,6 +294,12 @@ def judge(sh, what, path, option, ident, kind):
         sh.count('pairs_equal')
         sh.sample({'file': ident, 'option': option, 'lines': n[0]}, kind=kind)
         return
+    fid = 'zero_range_of_object_taken_for_terminator'
+    if option == '--debug-dump=loc' and fid in sh.quirks and section_names(path)[2] == 1:
+        g = oracles.run(['readelf', option, path], cwd=REPO)[1]
+        if ZERO_RANGE.search(g):
+            sh.known_finding(fid)       # the object holds a range that relocates to (0, 0): the open finding explains the difference
+            return
     ml = msg.splitlines()
     if res == 'diff' and option in ('--debug-dump=loc', '--debug-dump=Ranges') and len(ml) > 2 and '(base address)' in ml[1] and \
             'ffffffff' in ml[1] and '(base address)' in ml[2]:
@@ -341,7 +347,12 @@ OTHER_CFG = [('g++', 'c.cpp', ['-gdwarf-%d' % v, o, '-fPIC', '-c'], 'g++-dwarf%d
      ('gcc', 'a.c', ['-g', '-O1', '-c', '-ffunction-sections', '-fdata-sections'], 'gcc-sections.o'),
      ('gcc', ('a.c', 'b.c'), ['-m32', '-g', '-O1', '-fPIC', '-shared', '-nostdlib', '-Wl,--hash-style=both',
                               '-Wl,--version-script=' + os.path.join(VERIF_DIR, 'corpus', 'src', 'vers.map')], 'gcc-m32-so-verdef'),
-     ('gcc', 'a.c', ['-mx32', '-g', '-O1', '-c'], 'gcc-x32.o'), ('g++', 'c.cpp', ['-m32', '-g', '-O1', '-w', '-c'], 'g++-m32.o')]
+     ('gcc', 'a.c', ['-mx32', '-g', '-O1', '-c'], 'gcc-x32.o'), ('g++', 'c.cpp', ['-m32', '-g', '-O1', '-w', '-c'], 'g++-m32.o'),
+     # large entry trees: every type of a dozen system headers, a C++ program using the standard containers
+     ('gcc', 'big.c', ['-gdwarf-4', '-O1', '-fno-eliminate-unused-debug-types', '-c'], 'gcc-big-dwarf4.o'),
+     ('gcc', 'big.c', ['-gdwarf-5', '-O1', '-fno-eliminate-unused-debug-types', '-c'], 'gcc-big-dwarf5.o'),
+     ('g++', 'big.cpp', ['-gdwarf-4', '-O1', '-c'], 'g++-big-dwarf4.o'), ('g++', 'big.cpp', ['-gdwarf-5', '-O2', '-c'], 'g++-big-dwarf5.o'),
+     ('g++', 'big.cpp', ['-gdwarf-4', '-O1'], 'g++-big-exe-dwarf4')]
 
 
 def run_compiled(idx, rng, sh):
@@ -1389,8 +1400,43 @@ def run_case_inner(kind, idx, rng, sh):
         run_descr(idx, rng, sh)
 
 
+def zero_range_object():
+    """A relocatable object whose location list starts with a range that relocates to (0, 0): what a compiler writes for a
+    variable that is live in an empty range at the very start of a section. Only the relocations tell it from a terminator."""
+    from ..gen import dwtab
+    cu = dwtab.CU(version=4)
+    cu.root_attrs = [(0x11, 0x01, struct.pack('<Q', 0), None)]                              # DW_AT_low_pc 0
+    cu.add(0x34, [(0x02, 0x17, struct.pack('<I', 0), None)], label='v')                     # DW_AT_location -> list at 0
+    u, ab, offs = cu.build()
+    loc = struct.pack('<QQH', 0, 0, 1) + b'\x55' + struct.pack('<QQH', 0, 0, 1) + b'\x54' + struct.pack('<QQ', 0, 0)
+    rel = b''.join(struct.pack('<QQq', off, (1 << 32) | 1, add) for off, add in ((0, 0), (8, 0), (19, 4), (27, 8)))
+    sym = elfgen.sym_pack('<', True, 0, 0, 0, 0, 0, 0) + elfgen.sym_pack('<', True, 0, 0, 0, 3, 0, 1)       # section symbol of .text
+    secs = [elfgen.Sec('.text', 1, flags=6, data=b'\x90' * 16, align=16),
+            elfgen.Sec('.debug_info', 1, data=u), elfgen.Sec('.debug_abbrev', 1, data=ab), elfgen.Sec('.debug_loc', 1, data=loc),
+            elfgen.Sec('.rela.debug_loc', 4, flags=0x40, data=rel, link='.symtab', info='.debug_loc', entsize=24, align=8),
+            elfgen.Sec('.symtab', 2, data=sym, link='.strtab', info=2, entsize=24, align=8), elfgen.Sec('.strtab', 3, data=b'\0')]
+    return elfgen.build(cls=64, le=True, machine=62, etype=1, sections=secs)[0]
+
+
+ZERO_RANGE = re.compile(r'^\s+(?:[0-9a-f]{8} )?0{8,16} 0{8,16} \(DW_OP', re.M)
+
+
 def witness(fid, sh):
     """Committed deterministic witnesses of the open findings that the generated families can hit."""
+    if fid == 'zero_range_of_object_taken_for_terminator':
+        with oracles.Scratch() as s:
+            p = s.write('w.o', zero_range_object())
+            r1 = oracles.run(['readelf', '--debug-dump=loc', p], cwd=REPO)
+            r2 = oracles.run([sys.executable, 'scripts/readelf.py', '--debug-dump=loc', p], cwd=REPO)
+        if not ZERO_RANGE.search(r1[1]) or '(DW_OP_reg4 (rsi))' not in r1[1]:
+            sh.violation('C18:witness of %s: harness: GNU readelf does not print the two ranges' % fid, out=r1[1][-300:])
+        elif r2[0] == 0 and compare_output(norm_base_lines(r1[1]), norm_base_lines(r2[1]))[0]:
+            return                      # repaired: no KNOWN-FINDING line
+        elif 'DW_OP_reg4' not in r2[1]:
+            sh.known[fid] += 1          # the list is cut at its first entry (or the dump raises)
+        else:
+            sh.violation('C18:witness of %s fails differently' % fid, clone=r2[1][-300:], err=r2[2][-200:])
+        return
     if fid == 'push_tls_address_hp_alias':
         from ..gen import dwtab
         cu = dwtab.CU(version=4)
